@@ -194,6 +194,14 @@ def union_selection(ctx, a, f, rule):
         hinted = any("isinstance" in g and "tuple" in g and lab == "true" for g, lab in gtxt)
         validated = any(_is_validate_call(a, f, t.ast) and lab == "true" for (t, lab) in guards)
         deferral = any(("'double'" in g) and "==" in g and lab == "true" for g, lab in gtxt)
+        if deferral and float_is_double and not validated and not hinted:
+            # the kind of the later branch is what is compared, never the branch schema itself (it may be in dict form)
+            cand_names = set().union(*loops.values()) if loops else set()
+            for (t, lab) in guards:
+                if lab == "true" and isinstance(t.ast, ast.Compare) and len(t.ast.ops) == 1 and isinstance(t.ast.ops[0], ast.Eq):
+                    sides = [t.ast.left, t.ast.comparators[0]]
+                    if any(isinstance(x, ast.Constant) and x.value == "double" for x in sides) and any(isinstance(x, ast.Name) and x.id in cand_names for x in sides):
+                        return False, ("float->double deferral", "the branch schema itself is compared with 'double': a double branch written in dict form ({'type': 'double', ..}) is not recognised and the value stays in the 4-byte float branch")
         if hinted:
             named = any("==" in g and lab == "true" and "name" in g for g, lab in gtxt)
             return named, ("hinted choice", "in the tuple arm the index is chosen without comparing the hint with the branch name")
